@@ -37,7 +37,7 @@ def inner_of(data: bytes) -> bytes:
 class NetRecord:
     """One datagram put on the wire (kept for history oracles)."""
 
-    __slots__ = ("seq", "t", "src", "dst", "data", "verb", "who", "fate", "deliveries", "dir")
+    __slots__ = ("seq", "t", "src", "dst", "data", "verb", "who", "fate", "deliveries", "dir", "lseq")
 
     def __init__(self, seq, t, src, dst, data, verb, who, direction):
         self.seq = seq
@@ -147,7 +147,7 @@ class SimNet:
                 fate = "lost"
                 res.fault("loss")
         rec.fate = fate
-        self.log.add("tx", rec.seq, rec.src, rec.dst, rec.verb, len(rec.data), fate, rec.who)
+        rec.lseq = self.log.add("tx", rec.seq, rec.src, rec.dst, rec.verb, len(rec.data), fate, rec.who)
         for tap in self.taps:
             tap("tx", rec)
         if fate != "ok":
@@ -176,7 +176,7 @@ class SimNet:
         rec = NetRecord(self._n, now, src, dst, data, verb_of(data), who, direction)
         rec.fate = "ok"
         self.history.append(rec)
-        self.log.add("tx", rec.seq, rec.src, rec.dst, rec.verb, len(rec.data), "inject", who)
+        rec.lseq = self.log.add("tx", rec.seq, rec.src, rec.dst, rec.verb, len(rec.data), "inject", who)
         for tap in self.taps:
             tap("tx", rec)
         self._schedule(rec, now + delay)
